@@ -442,7 +442,28 @@ func ruleR03R04(c *Ctx) {
 				// which arguments hold the old content of the overwritten slot here?
 				old := map[*types.Var]bool{}
 				if cu.Decl != nil && cu.Decl.Type.Params != nil {
-					bb, _ := blockOf(g, n)
+					bb, bi := blockOf(g, n)
+					// the content of which slot arguments is known to be held by which local here?
+					var fsAt *FactSet
+					if bb != nil && bi >= 0 && fl.in[bb.Index] != nil {
+						fsAt = fl.setBefore(bb, bi)
+					}
+					slotContent := map[*types.Var]bool{} // locals that alias *X for a slot argument X of this call
+					if fsAt != nil {
+						for _, a := range found.Args {
+							if pt, ok := info.TypeOf(a).(*types.Pointer); !ok || !c.isNodeRefType(pt.Elem()) {
+								continue
+							}
+							want := fsAt.canon(&ast.StarExpr{X: a})
+							for _, f := range fsAt.m {
+								if f.Kind == FAlias {
+									if v := identVar(info, f.L); v != nil && fsAt.canon(f.L) == want {
+										slotContent[v] = true
+									}
+								}
+							}
+						}
+					}
 					k := 0
 					for _, f := range cu.Decl.Type.Params.List {
 						for _, nm := range f.Names {
@@ -458,7 +479,7 @@ func ruleR03R04(c *Ctx) {
 											}
 										}
 									}
-									if (any && okAll) || oldContent[av] {
+									if (any && okAll) || oldContent[av] || slotContent[av] {
 										if pv, ok := info.Defs[nm].(*types.Var); ok {
 											old[pv] = true
 										}
